@@ -96,7 +96,10 @@ class Ctx:
 
     def _tlc_cmd(self, jvm=(), classpath_extra=()):
         cp = ":".join(list(classpath_extra) + [TLA_JAR, CM_JAR])
-        return ["java", "-XX:+UseParallelGC", "-Xss64m"] + list(jvm) + ["-cp", cp, "tlc2.TLC"]
+        # TLC's own temporary directories go into the scratch directory of the run (removed with it), not into /tmp
+        tmpd = os.path.join(self.work, "jtmp")
+        os.makedirs(tmpd, exist_ok=True)
+        return ["java", "-XX:+UseParallelGC", "-Xss64m", "-Djava.io.tmpdir=" + tmpd] + list(jvm) + ["-cp", cp, "tlc2.TLC"]
 
     def tlc(self, specdir, module, cfg, timeout, workers=None, extra=(), jvm=(), env=None,
             classpath_extra=(), tag=None):
